@@ -140,6 +140,11 @@ func main() {
 			// C02's closed-loop argument assumes dragonboat's ordered config change on every started replica
 			run.Violate(hx.Violation{Property: "C02", Clause: "execute_step", Signature: sig, What: what, Ops: ops})
 		}
+		if clause == "report_lists_everything" {
+			// a stray replica Drummer is not told about (a pending one has no view to go by: its entry in the report is the
+			// only trace of it) is never asked to be killed
+			run.Violate(hx.Violation{Property: "C11", Clause: "stray_keeps_being_reported", Signature: sig, What: what, Ops: ops})
+		}
 		if clause == "instantiate_table" {
 			// the execute step of the report -> schedule -> deliver -> execute loop: the loop model (C01) assumes this table
 			run.Violate(hx.Violation{Property: "C01", Clause: "execute_step", Signature: sig, What: what, Ops: ops})
